@@ -820,3 +820,7 @@ impl Session {
         min(MAX_MESSAGE_SIZE as u16 / mtu / 2, 255) as _
     }
 }
+
+#[cfg(any(kani, verif_replay))]
+#[path = "/verif/kani/btp_session.rs"]
+pub(crate) mod verif_kani_btp_session;
